@@ -78,10 +78,18 @@ impl TryFrom<CompressionWithLevel> for Compressor {
                 Ok(Compressor::Zstd(stream))
             }
             #[cfg(feature = "xz-compression")]
-            CompressionWithLevel::Xz(level) => Ok(Compressor::Xz(liblzma::write::XzEncoder::new(
-                Vec::new(),
-                level,
-            ))),
+            CompressionWithLevel::Xz(level) => {
+                // XzEncoder::new() panics for levels the encoder does not know
+                let stream = liblzma::stream::Stream::new_easy_encoder(
+                    level,
+                    liblzma::stream::Check::Crc64,
+                )
+                .map_err(io::Error::from)?;
+                Ok(Compressor::Xz(liblzma::write::XzEncoder::new_stream(
+                    Vec::new(),
+                    stream,
+                )))
+            }
             #[cfg(feature = "bzip2-compression")]
             CompressionWithLevel::Bzip2(level) => Ok(Compressor::Bzip2(
                 bzip2::write::BzEncoder::new(Vec::new(), bzip2::Compression::new(level)),
